@@ -190,10 +190,19 @@ theorem c13_nested_requires_grant_from_signer (wall : Nat) (grantee : Addr) (s s
 
 /-- In every run, every message that executes — top level, nested at any depth, or carried by a
 governance proposal — has as its signer an address that somebody can sign for or the gov module
-itself; no other module account can ever be the signer of an executed message. -/
-theorem c13_executed_messages_are_signed (g : GenCfg) (s s' : State) (hr : Reachable g s) (hs : ChainStep s s') :
-    FinePath s s' ∧ GrantsOK s' :=
-  chainStep_fine s s' hs (reachable_fine g s hr).2
+itself, or — through an authz grant that was already in the genesis document — an account outside the application's
+module range (group-policy, interchain, module-derived accounts); no module account of the application other than gov
+can ever be the signer of an executed message. -/
+theorem c13_executed_messages_are_signed (g : GenCfg) (hgg : GenGrantsOK g) (s s' : State) (hr : Reachable g s)
+    (hs : ChainStep s s') : FinePath s s' ∧ GrantsOK s' :=
+  chainStep_fine s s' hs (reachable_fine g hgg s hr).2
+
+/-- the genesis premise is satisfiable with a grant from a 32-byte (non-key) account in the genesis document -/
+example : GenGrantsOK { grants := [(2001, 0, "str.create")] } := by
+  intro ga ea k h
+  simp only [List.mem_cons, Prod.mk.injEq, List.not_mem_nil, or_false] at h
+  obtain ⟨rfl, _, _⟩ := h
+  exact Or.inr (Or.inr (by decide))
 
 /-- an explicit fee payer (`AuthInfo.Fee.Payer`) is a required signer: a transaction naming somebody else as the payer of
 its fee is executed only with that account's signature -/
